@@ -111,7 +111,8 @@ End Codecs.
 
 (** ---------- the composite round trip, for glyphs without libs ---------- *)
 (** Every glyph that obeys the glyph rules of C12, holds finite numbers, a note that is trimmed and
-    not empty (outside F3), no empty contour (part of [contour_rules], outside class empty-contour)
+    not empty (outside F3), no contour without points (part of [contour_rules]; the writer skips
+    such contours, see [C02_encode_drops_empty_contours])
     and no lib is encoded to a tree that the reader accepts, and the glyph read back agrees in
     every field: numbers exactly (a zero loses its sign), colours to three decimals, object libs
     absent.  PARTIAL: glyphs with a glyph lib or object libs are not covered (see the header). *)
@@ -185,12 +186,15 @@ Example C02_F3_lib_witness :
   end /\
   c02_f3 (mkOpts 9 1 false) g_lib_multiline = true /\ c02_f3 (mkOpts 9 0 false) g_lib_multiline = false.
 Proof. vm_compute. repeat split; reflexivity. Qed.
-(** an empty contour is written and then dropped by the reader *)
-Example C02_empty_contour_witness :
+(** contours without points are not written (e956b60): the writer's output is that of the glyph
+    without them, for ALL glyphs; the round-trip theorem applies to that glyph *)
+Theorem C02_encode_drops_empty_contours : forall ff ff3 fi fh o g,
+  encode_glif ff ff3 fi fh o (drop_empty g) = encode_glif ff ff3 fi fh o g.
+Proof. exact encode_drop_empty. Qed.
+Example C02_empty_contour_regression :
   let g := mkGlyph [97] f0 f0 [] None None [] [] [] [mkContour [] None None] [] in
-  match reread (mkOpts 9 1 false) g with Ok g' => gcontours g' = [] | _ => False end /\
-  c02_empty_contour g = true.
-Proof. vm_compute. split; reflexivity. Qed.
+  match reread (mkOpts 9 1 false) g with Ok g' => g' = drop_empty g | _ => False end.
+Proof. vm_compute. reflexivity. Qed.
 (** non-vacuity of the codec theorems: a contour that satisfies their hypotheses *)
 Example C02_contour_hypotheses_satisfiable :
   let c := mkContour [mkPoint f0 f1 Line false (Some [97]) (Some [112]) None;
